@@ -164,7 +164,11 @@ func c09NestedOp(c *runner.Ctx, r *rand.Rand, sg *gen.Seg, avoidBlock int) (stri
 
 func c09ReentrantRun(c *runner.Ctx) {
 	r := c.R
-	w, err := gen.GenWorld(r, c.TmpDir, fmt.Sprintf("w%d", c.Idx), gen.WorldOpts{MinDocs: 130, MaxDocs: 400})
+	wo := gen.WorldOpts{MinDocs: 130, MaxDocs: 400}
+	if c.Idx%8 == 0 {
+		wo = gen.WorldOpts{Jumbo: true} // >2048 documents: nested doc-value visits land in different 1024-document chunks
+	}
+	w, err := gen.GenWorld(r, c.TmpDir, fmt.Sprintf("w%d", c.Idx), wo)
 	if err != nil {
 		c.Note(fmt.Sprintf("case %d: world construction failed (C01/C02/C04's business): %s", c.Idx, firstLine(err.Error())))
 		return
@@ -282,7 +286,11 @@ var c09OpNames = []string{"stored", "dict-iter", "postings", "docvalues", "docs-
 
 func c09ConcurrentRun(c *runner.Ctx) {
 	r := c.R
-	w, err := gen.GenWorld(r, c.TmpDir, fmt.Sprintf("w%d", c.Idx), gen.WorldOpts{MinDocs: 260, MaxDocs: 420, Bases: 2})
+	wo := gen.WorldOpts{MinDocs: 260, MaxDocs: 420, Bases: 2}
+	if c.Idx%3 == 0 {
+		wo = gen.WorldOpts{Jumbo: true, Bases: 2} // concurrent doc-value readers in different 1024-document chunks
+	}
+	w, err := gen.GenWorld(r, c.TmpDir, fmt.Sprintf("w%d", c.Idx), wo)
 	if err != nil {
 		c.Note(fmt.Sprintf("case %d: world construction failed (C01/C02/C04's business): %s", c.Idx, firstLine(err.Error())))
 		return
